@@ -83,3 +83,11 @@ Proof.
 Qed.
 
 Definition sumN (l : list N) : N := fold_right N.add 0 l.
+
+(* the report of one history: a concrete step-contract clause (code >= 100), found possibly after the
+   model and the implementation had already parted, is preferred to the divergence that preceded it *)
+Definition prefer_clause (l : list (N * N)) : list (N * N) :=
+  match find (fun x => 100 <=? snd x) l with
+  | Some x => [x]
+  | None => match l with x :: _ => [x] | [] => [] end
+  end.
